@@ -12,6 +12,7 @@ import GPy.C07.Proofs
 import GPy.C07.TextProofs
 import GPy.C07.ShiftProofs
 import GPy.C07.BitProofs
+import GPy.C07.PowProofs
 namespace GPy.C07
 
 /-- shared proof script: case-split on the representations of both operands,
@@ -200,6 +201,34 @@ theorem bitwise_exact_partial (op : BinOp) (hop : op = .and ∨ op = .or ∨ op 
       convertToBig, convertToBool, tyTag, BinOp.isCmp, denoteRes, specBin, inRange_bool,
       and64_eq, or64_eq, xor64_eq, *])
   all_goals first | exact iland_comm _ _ | exact ilor_comm _ _ | exact ixor_comm _ _
+
+/-- the modulus operand: `None` or a number -/
+def modOf : Obj → Option (Option Int)
+  | .none => some none
+  | o => (denote o).map some
+
+/-- `**` and three-argument `pow` for every representation mix: exact power; with a modulus the
+result takes the sign of the modulus, modulus 0 is ValueError, a negative exponent with a modulus
+is TypeError (without one the result is a float, whose value belongs to C15) -/
+theorem pow_exact_partial (a b c : Obj) (x y : Int) (m : Option Int)
+    (ha : denote a = some x) (hb : denote b = some y) (hc : modOf c = some m)
+    (hk : ¬ (isBool a = true ∧ (isBool b = true ∨ c ≠ .none))) :
+    denoteRes (pow a b c) = some (specPow x y m) := by
+  obtain ⟨hden, hni⟩ := bigPow_closed x y m
+  obtain ⟨hden2, hni2⟩ := bigPow_closed x y none
+  cases hbp : bigPow x y m with
+  | error e =>
+    rw [hbp] at hden
+    cases a <;> cases b <;> cases c <;> simp [denote, modOf, isBool] at ha hb hc hk <;> subst ha hb hc
+    all_goals (simp [pow, convertToBig, tyTag, hbp] ; try exact hden)
+  | ok r =>
+    rw [hbp] at hden
+    have hr := hni r hbp
+    cases a <;> cases b <;> cases c <;> simp [denote, modOf, isBool] at ha hb hc hk <;> subst ha hb hc
+    all_goals (simp [pow, convertToBig, tyTag, hbp, hr] ; try exact hden)
+
+theorem pow_boolOnly_witness : denoteRes (pow (.bool true) (.bool true) .none) = some (.error .type)
+    ∧ specPow 1 1 none = .ok (.int 1) := by decide
 
 /-- Text → integer: for EVERY text and EVERY base argument, `py.IntFromString` (model)
 yields exactly the value Python's `int(text, base)` grammar assigns, or ValueError
